@@ -379,6 +379,69 @@ theorem admin_spec (ra : K) (s : St K A) (authority a : A) (restarted : Bool) (h
 
 end
 
+
+/-! ### audit additions: exact success conditions (the history spec `specRun` is driven by which calls
+SUCCEED; these say when they do, so the spec is closed) -/
+section
+variable {K A : Type} [DecidableEq K] [DecidableEq A]
+
+/-- `grant` succeeds exactly when the role is enabled, not yet held, and the member table has room
+(or the address is already a member) -/
+theorem grant_succeeds_iff (s : St K A) (a : A) (r : K) :
+    (∃ s', grant s a r = .ok s') ↔
+      (enabledB s r = true ∧ grantedB s a r = false ∧ (memberB s a = true ∨ s.members.length < 64)) := by
+  unfold grant enabledB grantedB memberB
+  cases hf : findRole s.roles r with
+  | none => simp
+  | some m =>
+    cases hl : lookup s.members a with
+    | none =>
+      cases he : m.enabled
+      · simp [he]
+      · by_cases hlen : s.members.length ≥ MAX_MEMBERS
+        · have : ¬ s.members.length < 64 := by unfold MAX_MEMBERS at hlen; omega
+          simp [he, hlen, this]
+        · have : s.members.length < 64 := by unfold MAX_MEMBERS at hlen; omega
+          simp [he, hlen, this]
+    | some bits =>
+      cases he : m.enabled
+      · simp [he]
+      · by_cases hc : m.index ∈ bits <;> simp [he, hc]
+
+/-- `revoke` succeeds exactly when the grant is held (enabled role or not) -/
+theorem revoke_succeeds_iff (s : St K A) (a : A) (r : K) :
+    (∃ s', revoke s a r = .ok s') ↔ grantedB s a r = true := by
+  constructor
+  · rintro ⟨s', h⟩
+    cases hg : grantedB s a r with
+    | true => rfl
+    | false => rw [revoke_absent_fails s a r hg] at h; cases h
+  · exact revoke_on_disabled_ok s a r
+
+/-- `enable_role` succeeds exactly when the role is not enabled and is known or there is room -/
+theorem enable_succeeds_iff (s : St K A) (r : K) :
+    (∃ s', enableRole s r = .ok s') ↔
+      (enabledB s r = false ∧ (knownB s r = true ∨ s.roles.length < 32)) := by
+  unfold enableRole enabledB knownB
+  cases hf : findRole s.roles r with
+  | some m => cases he : m.enabled <;> simp [he]
+  | none =>
+    by_cases hlen : s.roles.length ≥ MAX_ROLES
+    · have : ¬ s.roles.length < 32 := by unfold MAX_ROLES at hlen; omega
+      simp [hlen, this]
+    · have : s.roles.length < 32 := by unfold MAX_ROLES at hlen; omega
+      simp [hlen, this]
+
+/-- `disable_role` fails exactly on a known, disabled role -/
+theorem disable_succeeds_iff (s : St K A) (r : K) :
+    (∃ s', disableRole s r = .ok s') ↔ (enabledB s r = true ∨ knownB s r = false) := by
+  unfold disableRole enabledB knownB
+  cases hf : findRole s.roles r with
+  | some m => cases he : m.enabled <;> simp [he]
+  | none => simp
+
+end
+
 /-! ### non-vacuity (concrete stores; roles are strings, addresses numbers) -/
 
 example : hasRole ex1 7 "KEEPER" = .ok true := by decide
@@ -390,5 +453,106 @@ example : (revoke ex1 7 "ADMIN").toOption.isSome = true := by decide
 example : hasRole (run ex1 [.revoke 7 "ADMIN", .revoke 7 "KEEPER"]) 7 "KEEPER" = .error .PermissionDenied := by decide
 example : storeHasRole "RESTART_ADMIN" (run ex1 [.enable "RESTART_ADMIN", .grant 9 "RESTART_ADMIN"]) true 9 "NOPE" = .ok true := by decide
 example : storeHasRole "RESTART_ADMIN" (run ex1 [.enable "RESTART_ADMIN", .grant 9 "RESTART_ADMIN"]) true 7 "KEEPER" = .error .StoreOutdated := by decide
+
+/-! ### audit additions: every hypothesis set is met by a concrete, non-initial store -/
+
+/-- the invariant holds on `ex1` (two roles, one disabled; one member holding both) -/
+theorem ex1_inv_witness : Inv ex1 := (history_invariant _).1
+
+/-- a store over `Bool` role keys (so that `∀ r'` premises are decidable): 7 holds only `true`, 8 holds `false` -/
+def exB : St Bool Nat :=
+  run St.empty [.enable true, .enable false, .grant 7 true, .grant 7 false, .grant 8 false, .revoke 7 false]
+theorem exB_inv_witness : Inv exB := (history_invariant _).1
+
+/-- 32 roles / 64 members: the stores at capacity -/
+def exFullRoles : St Nat Nat := run St.empty ((List.range 32).map Op.enable)
+def exFullMembers : St Nat Nat := run St.empty (.enable 0 :: (List.range 64).map (fun a => Op.grant a 0))
+
+-- successful operations under the invariant, instantiating the `…_exactly` theorems
+example : ∃ s', grant ex1 8 "KEEPER" = .ok s' ∧ grantedB s' 8 "KEEPER" = true ∧
+    grantedB s' 7 "KEEPER" = grantedB ex1 7 "KEEPER" ∧ enabledB s' "ADMIN" = enabledB ex1 "ADMIN" :=
+  ⟨(run ex1 [.grant 8 "KEEPER"]), by decide,
+    by rw [(grant_adds_exactly ex1 _ 8 "KEEPER" ex1_inv_witness (by decide)).1]; simp,
+    by rw [(grant_adds_exactly ex1 _ 8 "KEEPER" ex1_inv_witness (by decide)).1]; simp,
+    (grant_adds_exactly ex1 _ 8 "KEEPER" ex1_inv_witness (by decide)).2 _⟩
+example : ∃ s', revoke ex1 7 "ADMIN" = .ok s' ∧ grantedB s' 7 "ADMIN" = false ∧ grantedB s' 7 "KEEPER" = true :=
+  ⟨(run ex1 [.revoke 7 "ADMIN"]), by decide,
+    by rw [(revoke_removes_exactly ex1 _ 7 "ADMIN" ex1_inv_witness (by decide)).1]; simp,
+    by decide⟩
+example : ∃ s', enableRole ex1 "ADMIN" = .ok s' ∧ enabledB s' "ADMIN" = true ∧ grantedB s' 7 "ADMIN" = true :=
+  ⟨(run ex1 [.enable "ADMIN"]), by decide,
+    by rw [(enable_sets_exactly ex1 _ "ADMIN" ex1_inv_witness (by decide)).1]; simp,
+    by rw [(enable_sets_exactly ex1 _ "ADMIN" ex1_inv_witness (by decide)).2]; decide⟩
+example : ∃ s', disableRole ex1 "KEEPER" = .ok s' ∧ enabledB s' "KEEPER" = false ∧ grantedB s' 7 "KEEPER" = true :=
+  ⟨(run ex1 [.disable "KEEPER"]), by decide,
+    by rw [(disable_clears_exactly ex1 _ "KEEPER" (by decide)).1]; simp,
+    by rw [(disable_clears_exactly ex1 _ "KEEPER" (by decide)).2]; decide⟩
+
+-- failing operations
+example : apply ex1 (.grant 7 "KEEPER") = ex1 := failing_op_unchanged ex1 _ (by decide)
+example : grant ex1 7 "KEEPER" = .error .Preconditions := grant_twice_fails ex1 7 "KEEPER" (by decide) (by decide)
+example : grant ex1 8 "ADMIN" = .error .Preconditions := grant_disabled_fails ex1 8 "ADMIN" (by decide) (by decide)
+example : revoke ex1 8 "KEEPER" = .error .PermissionDenied :=
+  (revoke_absent_fails ex1 8 "KEEPER" (by decide)).trans (by decide)
+example : revoke ex1 7 "NOPE" = .error .NotFound :=
+  (revoke_absent_fails ex1 7 "NOPE" (by decide)).trans (by decide)
+example : revoke exB 7 false = .error .Preconditions :=
+  (revoke_absent_fails exB 7 false (by decide)).trans (by decide)
+example : enableRole ex1 "KEEPER" = .error .Preconditions := enable_enabled_fails ex1 "KEEPER" (by decide)
+example : disableRole ex1 "ADMIN" = .error .Preconditions :=
+  (disable_disabled_fails ex1 "ADMIN" (by decide)).trans (by decide)
+example : disableRole ex1 "NOPE" = .ok ex1 ∧ apply ex1 (.disable "NOPE") = ex1 :=
+  disable_unknown_is_noop ex1 "NOPE" (by decide)
+
+-- members
+example : memberB (run exB [.revoke 7 true]) 7 = false ∧
+    ∀ r', hasRole (run exB [.revoke 7 true]) 7 r' = .error .PermissionDenied :=
+  last_revoke_removes_member exB _ 7 true exB_inv_witness (by decide) (by decide)
+example : ∃ r, grantedB ex1 7 r = true := (member_iff_holds ex1 7 ex1_inv_witness).1 (by decide)
+example : memberB exB 8 = true := (member_iff_holds exB 8 exB_inv_witness).2 ⟨false, by decide⟩
+example : enabledB ex1 "ADMIN" = false ∧ ∃ s', revoke ex1 7 "ADMIN" = .ok s' :=
+  ⟨by decide, revoke_on_disabled_ok ex1 7 "ADMIN" (by decide)⟩
+
+-- capacities
+example : enableRole exFullRoles 99 = .error .ExceedMax :=
+  role_capacity exFullRoles 99 (by decide +kernel) (by decide +kernel)
+example : grant exFullMembers 99 0 = .error .ExceedMax :=
+  member_capacity exFullMembers 99 0 (by decide +kernel) (by decide +kernel) (by decide +kernel)
+example : (∃ s', enableRole ex1 "NOPE" = .ok s') ∧ (∃ s', grant ex1 8 "KEEPER" = .ok s') :=
+  ⟨(below_capacity_ok ex1 8 "NOPE").1 (by decide) (by decide),
+   (below_capacity_ok ex1 8 "KEEPER").2 (by decide) (by decide) (by decide)⟩
+/-- the invariant's capacity bounds are attained (not just `≤` of something small) -/
+example : exFullRoles.roles.length = 32 ∧ exFullMembers.members.length = 64 := by decide +kernel
+
+-- histories: a non-empty run with a failing call, a disable/enable and a revoke in it
+example : hasRole (run (St.empty : St String Nat)
+      [.enable "K", .grant 7 "K", .grant 7 "K", .disable "K", .grant 8 "K", .enable "K", .grant 9 "K", .revoke 9 "K"]) 7 "K"
+    = .ok true :=
+  (history_hasRole _ 7 "K").2 ⟨by decide, by decide⟩
+example : (specRun (St.empty : St String Nat) (fun _ => false) (fun _ _ => false)
+      [.enable "K", .grant 7 "K", .grant 7 "K", .disable "K", .grant 8 "K", .enable "K", .grant 9 "K", .revoke 9 "K"]).2 9 "K"
+    = false := by decide
+example : (∀ r, (specRun ex1 (enabledB ex1) (grantedB ex1) [.enable "ADMIN", .revoke 7 "KEEPER"]).1 r
+      = enabledB (run ex1 [.enable "ADMIN", .revoke 7 "KEEPER"]) r) :=
+  (history_refines _ ex1 _ _ ex1_inv_witness (fun _ => rfl) (fun _ _ => rfl)).1
+
+-- restart / admin
+example : storeHasRole "KEEPER" ex1 true 7 "NOPE" = .ok true :=
+  restart_any_role_name "KEEPER" ex1 7 "NOPE" (by decide) (by decide)
+example : ∃ e, storeHasRole "ADMIN" ex1 true 7 "KEEPER" = .error e :=
+  restart_without_admin_role "ADMIN" ex1 7 "KEEPER" (by decide)
+example : storeHasAdminRole "KEEPER" ex1 1 true 7 = .ok true :=
+  (admin_spec "KEEPER" ex1 1 7 true (by decide)).2 ⟨rfl, by decide, by decide⟩
+example : storeHasAdminRole "KEEPER" ex1 1 false 7 = .ok false := by decide
+example : storeHasAdminRole "KEEPER" ex1 1 false 1 = .ok true := authority_always_admin "KEEPER" ex1 1 false
+
+-- the success characterisations, instantiated in both directions
+example : ¬ ∃ s', grant exFullMembers 99 0 = .ok s' := by
+  rw [grant_succeeds_iff]; decide +kernel
+example : ∃ s', grant ex1 8 "KEEPER" = .ok s' :=
+  (grant_succeeds_iff ex1 8 "KEEPER").2 ⟨by decide, by decide, .inr (by decide)⟩
+example : ∃ s', enableRole ex1 "ADMIN" = .ok s' := (enable_succeeds_iff ex1 "ADMIN").2 ⟨by decide, .inl (by decide)⟩
+example : ∃ s', disableRole ex1 "KEEPER" = .ok s' := (disable_succeeds_iff ex1 "KEEPER").2 (.inl (by decide))
+example : ¬ ∃ s', revoke ex1 8 "KEEPER" = .ok s' := by rw [revoke_succeeds_iff]; decide
 
 end Gmx.C18
